@@ -20,6 +20,7 @@ import numpy as np
 from pyvc import terms as T
 from pyvc.series import Series
 from pyvc.replay import script
+from contracts.common import abstract_stages, expand_stages
 from pyvc.vnp import INF
 
 z2, z3, ln2 = T.app("zeta2"), T.app("zeta3"), T.app("ln", T.const(2))
@@ -153,7 +154,24 @@ def run(chk):
         tag = f"C16.a[{scheme},order={order[0]},{nf_ref}->{nf_to}]"
         fn = "eko.couplings:Couplings.a"
         obj = mk(scheme, order, nf_ref)
-        for pt, pc, res in chk.run_paths(tag, lambda: obj.a(muf, nf_to), req, fn=fn, replay=rp):
+        calls = []
+
+        # contract of compute: "some pair of couplings, a function of (a_ref, nf, nl, from, to)" -- handed back as FRESH variables per call, with the arguments recorded,
+        # so that every obligation below contains one matching polynomial at most (no nested expansions: the proof does not depend on how the code writes the factor)
+        def compute_stub(aref, nfv, nl, frm, to):
+            k = len(calls)
+            out = [T.var(f"A{k}"), T.var(f"B{k}")]
+            calls.append((list(aref), nfv, nl, frm, to, out))
+            return np.array(out, dtype=object)
+
+        obj.compute = compute_stub
+
+        def thunk():
+            calls.clear()
+            r = obj.a(muf, nf_to)
+            return r, list(calls)
+
+        for pt, pc, (res, log) in chk.run_paths(tag, thunk, req, fn=fn, replay=rp):
             hyp = req + list(pc)
             # specification along the path (Atlas.path is C19's contract; recomputed here on the same symbolic atlas)
             # the spec must follow the same isclose decisions: re-derive them from the path condition with z3
@@ -162,14 +180,24 @@ def run(chk):
             nfs = list(range(nf_ref, nf_to + sg, sg)) if nf_to != nf_ref else [nf_ref]
             bounds = [mu0] + [walls[max(n1, n2) - 4] for n1, n2 in zip(nfs, nfs[1:])] + [muf]
             cur = [as0, aem0]
-            ok_spec = True
+            ok_spec, used, bad_calls, inputs_l, inputs_r, stages = True, 0, [], [], [], []
             for k, nfv in enumerate(nfs):
                 o, t = bounds[k], bounds[k + 1]
                 close = vnp_isclose(o, t)
                 if smt.prove(hyp, close):
                     new = list(cur)
                 elif smt.prove(hyp, T.bnot(close)):
-                    new = [F(0, cur, nfv, 3, o, t), F(1, cur, nfv, 3, o, t)]
+                    if used >= len(log):
+                        bad_calls.append(f"segment {o} -> {t} (nf={nfv}) is not evolved")
+                        new = list(cur)
+                    else:
+                        aref, nfc, nlc, frm, to, out = log[used]
+                        used += 1
+                        if nfc != nfv or T.lift(frm).n != T.lift(o).n or T.lift(to).n != T.lift(t).n:
+                            bad_calls.append(f"compute called with (nf={nfc}, {frm} -> {to}), the path has (nf={nfv}, {o} -> {t})")
+                        inputs_l += [aref[0], aref[1]]
+                        inputs_r += [cur[0], cur[1]]
+                        new = list(out)
                 else:
                     ok_spec = False
                     break
@@ -183,12 +211,32 @@ def run(chk):
                     for n in range(1, order[0]):
                         for l in range(n + 1):
                             fact = fact + new[0] ** n * Lr**l * coef[n, l]
-                    new = [new[0] * fact, new[1]]
+                    # the matched value becomes a lemma variable: the next stage is stated over it, and the code's corresponding sub-term is abstracted once proved equal
+                    Sj = T.var(f"S{len(stages)}")
+                    stages.append((Sj, new[0] * fact))
+                    new = [Sj, new[1]]
                 cur = new
             if not ok_spec:
                 chk.error(f"{pt}.spec", "could not decide an isclose() of the specification under the path condition")
                 continue
-            chk.eq(f"{pt}.a_s", res[0], cur[0], fn=fn, replay=rp, goal="a_s == F and matching factors composed along Atlas.path with (ratio of the heavier quark, coefficients at the lighter nf)")
+            if used != len(log):
+                bad_calls.append(f"{len(log)} evolution steps for {used} non-trivial segments")
+            chk.ground(f"{pt}.segments", not bad_calls, fn=fn, replay=rp, goal="one evolution step per non-trivial segment of Atlas.path, with its nf and end points", detail="; ".join(bad_calls) or None)
+            # nested matchings (several thresholds without evolution in between) are compared stage by stage: each proved stage is replaced by its lemma variable on both sides
+            def both_sides(code_x, spec_x):
+                cx = abstract_stages(code_x, stages, chk.rng)
+                left = set(T.free_vars(T.lift(cx)))
+                # stages the code term was not abstracted with are expanded again on the specification side
+                return cx, expand_stages(spec_x, [(S_, y_) for S_, y_ in stages if T._varname(S_) not in left])
+
+            code_as, spec_as = both_sides(res[0], cur[0])
+            if inputs_l:
+                pairs = [both_sides(x, y) for x, y in zip(inputs_l, inputs_r)]
+                inputs_l, inputs_r = [p_[0] for p_ in pairs], [p_[1] for p_ in pairs]
+            chk.eq(f"{pt}.a_s", code_as, spec_as, fn=fn, replay=rp, goal="a_s == F and matching factors composed along Atlas.path with (ratio of the heavier quark, coefficients at the lighter nf)")
+            if inputs_l:
+                chk.eq_block(f"{pt}.step_inputs", np.array(inputs_l, dtype=object), np.array(inputs_r, dtype=object), fn=fn, replay=rp,
+                             goal="every evolution step starts from the matched couplings of the previous one: a_s times the matching factor (ratio of the heavier quark, coefficients at the lighter nf), a_em unchanged")
             chk.eq(f"{pt}.a_em", res[1], cur[1], fn=fn, replay=rp, goal="a_em transported by F only")
             chk.ground(f"{pt}.a_ref_untouched", obj.a_ref[0] is as0 and obj.a_ref[1] is aem0, fn=fn, goal="self.a_ref is not modified")
         chk.configs += 1
